@@ -79,7 +79,7 @@ SETS = {
     "list-and-args": lambda c, z: [[z <= 1, z >= -1], z.sum() <= c.fresh_real("s")],
 }
 EXPSETS = {
-    "exp": lambda c, z: [rsome.exp(z).sum() <= _pos(c, "r"), z >= -1],
+    "exp": lambda c, z: [rsome.exp(z) <= _pos(c, "r"), z >= -1],
 }
 
 
